@@ -30,7 +30,11 @@ import (
 )
 
 var curFile []byte
-var bigAllocs int
+
+// defensive: set once the tree under test has made a single allocation above 64 MiB (only the
+// unfixed snoop.go does): from then on a record header announcing a record length above 16 MiB
+// is not delivered to the reader and the operation is answered `skipped`.
+var defensive bool
 
 func reset() { curFile = nil }
 
@@ -53,6 +57,7 @@ func (o out) String() string {
 func (o out) final() bool { return o.kind != "p" && o.kind != "err" }
 
 type result struct {
+	skipped bool
 	open    string
 	code    uint32
 	lt      string
@@ -61,6 +66,9 @@ type result struct {
 }
 
 func (r result) String() string {
+	if r.skipped {
+		return "skipped"
+	}
 	if r.open != "" {
 		return "open " + r.open
 	}
@@ -107,14 +115,17 @@ func runRead(c readCfg) result {
 	return res
 }
 
-func runRead1(c readCfg) result {
+func runRead1(c readCfg) (res result) {
 	allocated := strm.Allocated
 	if c.precise {
 		allocated = strm.AllocatedPrecise
 	}
 	mon := c.monitor && !c.precise
 	st := &strm.Stream{Data: c.stream, Fail: c.fail, Chunk: c.chunk, Sticky: c.sticky}
-	var res result
+	st.Guard = func(pos, want int) bool {
+		return defensive && want == 24 && pos+12 <= len(c.stream) && binary.BigEndian.Uint32(c.stream[pos+8:]) > 1<<24
+	}
+	defer func() { res.skipped = st.Guarded }()
 	var r *pcapgo.SnoopReader
 	var err error
 	rep, panicked := protect(func() { r, err = pcapgo.NewSnoopReader(st) })
@@ -160,6 +171,9 @@ func runRead1(c readCfg) result {
 			}
 		})
 		b1 := allocated()
+		if b1-b0 > 1<<26 {
+			defensive = true
+		}
 		if panicked {
 			res.outs = append(res.outs, out{kind: rep})
 			if mon {
@@ -171,9 +185,6 @@ func runRead1(c readCfg) result {
 			res.suspect = true
 			if c.precise {
 				lib.Finding("C15", "snoop:alloc", fmt.Sprintf("read call allocated %d bytes; stream %d bytes, max capture length %d", b1-b0, len(c.stream), snoopSnaplen))
-				if b1-b0 > 1<<26 {
-					bigAllocs++
-				}
 			}
 		}
 		k := strm.Classify(err)
@@ -227,7 +238,7 @@ func clip(s string) string {
 
 func chunkingAndErrors(c readCfg, base result) {
 	baseStr := base.String()
-	if strings.Contains(baseStr, "panic") {
+	if strings.Contains(baseStr, "panic") || base.skipped {
 		return
 	}
 	mx := strm.NewMix(c.stream, uint64(len(c.pat)))
@@ -246,7 +257,11 @@ func chunkingAndErrors(c readCfg, base result) {
 	for _, v := range variants {
 		cc := c
 		cc.chunk, cc.sticky, cc.monitor = v.chunk, v.sticky, false
-		if got := runRead(cc).String(); got != baseStr {
+		rv := runRead(cc)
+		if rv.skipped {
+			return
+		}
+		if got := rv.String(); got != baseStr {
 			lib.Finding("C15", "snoop:chunking", fmt.Sprintf("chunking %s changes the result: %s vs %s", v.name, clip(got), clip(baseStr)))
 			break
 		}
@@ -276,7 +291,7 @@ func chunkingAndErrors(c readCfg, base result) {
 		ce.fail, ce.chunk = false, nil
 		rf, re := runRead(cf), runRead(ce)
 		ok := true
-		if strings.Contains(re.String(), "panic") {
+		if strings.Contains(re.String(), "panic") || rf.skipped || re.skipped {
 			continue
 		}
 		if rf.open != "" || re.open != "" {
@@ -293,34 +308,12 @@ func chunkingAndErrors(c readCfg, base result) {
 	lib.Stat("mon:ioerr")
 }
 
-// dangerous: protective cap once the tree under test has shown multi-GiB allocations
-// (unfixed snoop.go): inputs with a huge record length field are no longer executed.
-func dangerous(b []byte) bool {
-	if bigAllocs < 4 {
-		return false
-	}
-	for off := 16; off+24 <= len(b); {
-		incl := binary.BigEndian.Uint32(b[off+4:])
-		rl := binary.BigEndian.Uint32(b[off+8:])
-		if rl > 1<<26 {
-			return true
-		}
-		if rl < 24 || uint64(rl) > uint64(len(b)) {
-			off += 24 + int(incl%4096)
-		} else {
-			off += int(rl)
-		}
-	}
-	return false
-}
-
 func doRead(pat string, data []byte, fail bool, full bool) string {
-	if dangerous(data) {
-		lib.Stat("skipped-after-huge-allocations")
-		return "skipped"
-	}
 	c := readCfg{stream: data, fail: fail, pat: pat, monitor: true}
 	res := runRead(c)
+	if res.skipped {
+		lib.Stat("skipped-after-huge-allocation")
+	}
 	n := 0
 	for _, o := range res.outs {
 		if o.kind == "p" {
